@@ -12,7 +12,7 @@ def wp(ps):
 
 class C13(Prop):
     pid = "C13"
-    generators = []
+    generators = ["confignext"]
     coq_targets = ["Run/EvalC13.vo"]
     bins = ["h_fs"]
     trusted = [
